@@ -5,7 +5,7 @@ from functools import reduce
 from keyword import iskeyword
 from typing import Callable
 
-replacements = {"!": "not ", "^": " and ", "v": " or "}
+replacements = {"!": " not ", "^": " and ", "v": " or "}
 
 pattern = re.compile(r"""("(?:[^"\\]|\\.)*"|'(?:[^'\\]|\\.)*')|\!(?!=)|\^|\bv\b""")
 
@@ -32,7 +32,7 @@ def replace_operators(expr: str) -> str:
             return match.group(0)
         return replacements[match.group(0)]
 
-    return pattern.sub(match_func, expr)
+    return pattern.sub(match_func, expr).strip()
 
 
 def custom_not(predicate: Callable) -> Callable:
